@@ -51,6 +51,7 @@ def one(rep, rng, j, scn=None):
                            gated=False, fresh=rng.random() < 0.3)
     scn.pop('free_sleep', None)
     scn['max_workers'] = rng.choice([1, 2, 4, None])
+    scn['empty_ctx'] = rng.random() < 0.1
     return _judge(rep, rng, scn, backend)
 
 
@@ -67,6 +68,8 @@ def _judge(rep, rng, scn, backend):
         ctx = {'shared': can[0], 'other': can[1]}
         for n in names[:3]:
             ctx[f'for_{n}'] = can[2] + n
+        if scn.get('empty_ctx'):
+            ctx = {}        # Lab(context=None) / an empty context: every filter sees an empty dict
         scn['ctx'] = ctx
         out = engine.run_dag(scn, keep=True)
         try:
